@@ -16,7 +16,8 @@ RULE = ("per base exchange (instance, flavour, pw, ids, x != y): adversary menu 
         "every truncation, extensions by 00/ff/sender payload/receiver payload/whole message, all 256 side bytes + none, substitution by "
         "identity, G, M, N, S, -P, 2P, P+G, small-order points, P+torsion, other sessions' messages, receiver's own message); toy groups "
         "with 1-byte elements: every delivered byte string of total length <= 2 and every 3-byte string labelled A/B/S (quick) / <= 3 "
-        "(thorough); join over T x T. configuration menu: all ordered pairs of 14 (pw, ids) tuples; parameter mismatches (re-seeded M/N/S, "
+        "(thorough); join over T x T. configuration menu: all ordered pairs of 20 (pw, ids) tuples, and all ordered pairs of 46 tuples whose identities/passwords a text, hex or base64 "
+        "representation would confuse, with neither / both / one end persisted and restored before finish(); parameter mismatches (re-seeded M/N/S, "
         "swapped M/N, other group of equal width). oracle: equal keys only for (unmodified, unmodified, same configuration) unless the "
         "strict-decoding reference protocol itself agrees (counted as protocol_degenerate). evaluations = finish() calls on the real "
         "code; distinct_nontrivial = distinct (instance family, fault kind, outcome class) combinations with fault kind != identity")
@@ -28,7 +29,7 @@ EXHAUSTIVE = True
 def bounds(tier):
     q = tier == "quick"
     return {"all_strings_len": {"T23": 3 if not q else "<=2 + labelled 3", "T29": "<=2 + labelled 3", "T11": 3 if not q else None},
-            "menu_instances": ["T23", "E37", "E109"] + T.SHIPPED, "config_menu": 14,
+            "menu_instances": ["T23", "E37", "E109"] + T.SHIPPED, "config_menu": len(CONFIGS_AB), "confusable_config_menu": len(CONFUSABLE_AB),
             "bitflips_on_2048_3072": "all" if not q else "every bit of first/last 2 bytes + one bit per other byte"}
 
 
@@ -340,8 +341,16 @@ CONFIGS_S = [(b"", b""), (b"a", b""), (b"b", b""), (b"a\x00", b""), (b"\x00a", b
              (__import__("hashlib").sha256(b"L" * 65).digest(), b"")]
 
 
+# identities / passwords that a text-, hex- or base64-based representation (for instance inside the serialized state) would confuse
+IDC = [b"\xff", b"\xfe", b"\xef\xbf\xbd", b"?", b"1234", b"\x12\x34", b"12 34", b"MTIzNA==", b"cafe", b"\xca\xfe", b"CAFE", b"\xfb\xff", b"-_", b"+/",
+       b"caf\xc3\xa9", b"caf\xe9", b"cafe\xcc\x81", b"a ", b" a", b"a\n"]
+CONFUSABLE_AB = [(b"a", i, b"") for i in IDC] + [(b"a", b"", i) for i in IDC[:6]] + [(p_, b"", b"") for p_ in IDC]
+CONFUSABLE_S = [(b"a", i) for i in IDC] + [(p_, b"") for p_ in IDC]
+
+
 def _config_task(task):
-    name, flavour, scalars = task
+    name, flavour, scalars = task[:3]
+    which, restore_modes = (task[3], task[4]) if len(task) > 3 else ("base", [(False, False)])
     acc = Acc()
     inst, why = T.try_get(name)
     if inst is None:
@@ -349,12 +358,14 @@ def _config_task(task):
         return acc
     rp = inst.rp
     s1, s2 = ("A", "B") if flavour == "AB" else ("S", "S")
-    menu = CONFIGS_AB if flavour == "AB" else CONFIGS_S
+    menu = (CONFIGS_AB if flavour == "AB" else CONFIGS_S) if which == "base" else (CONFUSABLE_AB if flavour == "AB" else CONFUSABLE_S)
+    if which == "confusable-ids":
+        menu = [c for c in menu if c[0] == b"a"]
     F = fam(inst)
     clone = not inst.small
-    for x, y in scalars:
-        RA = [Receiver(inst, s1, c[0], c[1:], x, clone=clone) for c in menu]
-        RB = [Receiver(inst, s2, c[0], c[1:], y, clone=clone) for c in menu]
+    for (x, y), (res1, res2) in itertools.product(scalars, restore_modes):
+        RA = [Receiver(inst, s1, c[0], c[1:], x, restored=res1, clone=clone) for c in menu]
+        RB = [Receiver(inst, s2, c[0], c[1:], y, restored=res2, clone=clone) for c in menu]
         for i, j in itertools.product(range(len(menu)), repeat=2):
             ra, rb = RA[i], RB[j]
             k1, k2 = ra.lib(rb.msg), rb.lib(ra.msg)
@@ -371,8 +382,8 @@ def _config_task(task):
             if r1 is not None and r1 == r2:
                 acc.degenerate["reference-protocol-agrees"] += 1
                 continue
-            acc.violation("C02/%s/%s/config/%s" % (F, flavour, "+".join(diff)),
-                          {"what": "ends that differ in %s agree on a key" % "+".join(diff),
+            acc.violation("C02/%s/%s/config/%s%s" % (F, flavour, "+".join(diff), "/restored" if (res1 or res2) else ""),
+                          {"what": "ends that differ in %s agree on a key%s" % ("+".join(diff), " (after serialize/from_serialized)" if (res1 or res2) else ""),
                            "replay": {"fn": "pair", "r1": ra.desc(), "d1": rb.msg, "r2": rb.desc(), "d2": ra.msg},
                            "expected": "raise or different keys", "observed": ["ok", k1]})
         acc.n(traces=1)
@@ -496,9 +507,14 @@ def run(tier, seed):
             for ch in core.chunks(sc, 8):
                 for flavour in ("AB", "SS"):
                     tasks.append(("config", (name, flavour, ch)))
+            if name == "T23":
+                for flavour in ("AB", "SS"):
+                    for modes in ([(False, False)], [(True, True)], [(True, False)]):
+                        tasks.append(("config", (name, flavour, [(3, 5), (0, 1)], "confusable", modes)))
         else:
             for flavour in ("AB", "SS"):
                 tasks.append(("config", (name, flavour, [(3, 5)])))
+                tasks.append(("config", (name, flavour, [(3, 5)], "confusable-ids", [(True, True)])))
     # parameter mismatches
     for name, other in [("T23", "T29"), ("T29", "T23"), ("E37", "E109"), ("E109", "ParamsEd25519"), ("ParamsEd25519", "E109"), ("Params1024", None)] + \
             ([] if quick else [("Params2048", None), ("Params3072", None), ("T11", "T31"), ("E53", "E37")]):
